@@ -935,4 +935,243 @@ theorem toyMac_unforgeable : Unforgeable toyMac := by
     simpa using this
   exact List.append_inj h2 hl
 
+-- ---------------------------------------------------------------- the canonical query determines the parameters
+
+def encFactsB (c : UInt8) : Bool :=
+  hexNibbleU (c >>> 4) != 38 && hexNibbleU (c &&& 15) != 38 && hexNibbleU (c >>> 4) != 61 && hexNibbleU (c &&& 15) != 61 &&
+  (!isUnreserved c || (c != 38 && c != 61 && c != 37))
+
+set_option maxRecDepth 100000 in
+theorem encFactsB_all : ∀ c : UInt8, encFactsB c = true := by
+  apply forall_uint8
+  decide
+
+theorem uriEncode_clean (s : Bytes) : (38 : UInt8) ∉ uriEncode s ∧ (61 : UInt8) ∉ uriEncode s := by
+  have key : ∀ b ∈ uriEncode s, b ≠ 38 ∧ b ≠ 61 := by
+    intro b hb
+    unfold uriEncode at hb
+    obtain ⟨c, _, hc⟩ := List.mem_flatMap.1 hb
+    have f := encFactsB_all c
+    simp only [encFactsB, Bool.and_eq_true, bne_iff_ne, ne_eq, Bool.or_eq_true, Bool.not_eq_true'] at f
+    obtain ⟨⟨⟨⟨f1, f2⟩, f3⟩, f4⟩, f5⟩ := f
+    split at hc
+    · rename_i hu
+      simp only [List.mem_singleton] at hc
+      subst hc
+      rcases f5 with h | h
+      · rw [hu] at h; contradiction
+      · exact ⟨h.1.1, h.1.2⟩
+    · simp only [pct, List.mem_cons, List.not_mem_nil, or_false] at hc
+      rcases hc with rfl | rfl | rfl
+      · exact ⟨by decide, by decide⟩
+      · exact ⟨f1, f3⟩
+      · exact ⟨f2, f4⟩
+  exact ⟨fun h => (key 38 h).1 rfl, fun h => (key 61 h).2 rfl⟩
+
+/-- percent-decoding undoes `uriEncode` -/
+theorem pctDecode_uriEncode (s : Bytes) : pctDecode (uriEncode s) = s := by
+  induction s with
+  | nil => rfl
+  | cons c t ih =>
+    have e : uriEncode (c :: t) = (if isUnreserved c then [c] else pct c) ++ uriEncode t := by
+      simp [uriEncode]
+    rw [e]
+    split
+    · rename_i hu
+      have f := encFactsB_all c
+      simp only [encFactsB, Bool.and_eq_true, bne_iff_ne, ne_eq, Bool.or_eq_true, Bool.not_eq_true'] at f
+      have h37 : c ≠ 37 := by
+        rcases f.2 with h | h
+        · rw [hu] at h; contradiction
+        · exact h.2
+      simp only [List.singleton_append]
+      rw [pctDecode_plain c _ h37, ih]
+    · rw [pctDecode_pct, ih]
+
+theorem renderQuery_cons_cons (p q : Bytes × Bytes) (t : List (Bytes × Bytes)) :
+    renderQuery (p :: q :: t) = p.1 ++ 61 :: (p.2 ++ 38 :: renderQuery (q :: t)) := by
+  simp [renderQuery, join, List.append_assoc]
+
+theorem renderQuery_single (p : Bytes × Bytes) : renderQuery [p] = p.1 ++ 61 :: p.2 := by
+  simp [renderQuery, join]
+
+/-- a rendered pair list can be read back: keys without `=`/`&`, values without `&` -/
+theorem renderQuery_injective (ps ps' : List (Bytes × Bytes))
+    (w : ∀ p ∈ ps, (61 : UInt8) ∉ p.1 ∧ (38 : UInt8) ∉ p.1 ∧ (38 : UInt8) ∉ p.2)
+    (w' : ∀ p ∈ ps', (61 : UInt8) ∉ p.1 ∧ (38 : UInt8) ∉ p.1 ∧ (38 : UInt8) ∉ p.2)
+    (e : renderQuery ps = renderQuery ps') : ps = ps' := by
+  induction ps generalizing ps' with
+  | nil =>
+    cases ps' with
+    | nil => rfl
+    | cons p' t' =>
+      exfalso
+      cases t' with
+      | nil => rw [renderQuery_single] at e; simp [renderQuery, join] at e
+      | cons q' u' => rw [renderQuery_cons_cons] at e; simp [renderQuery, join] at e
+  | cons p t ih =>
+    cases ps' with
+    | nil =>
+      exfalso
+      cases t with
+      | nil => rw [renderQuery_single] at e; simp [renderQuery, join] at e
+      | cons q u => rw [renderQuery_cons_cons] at e; simp [renderQuery, join] at e
+    | cons p' t' =>
+      have hw := w p (by simp)
+      have hw' := w' p' (by simp)
+      cases t with
+      | nil =>
+        cases t' with
+        | nil =>
+          rw [renderQuery_single, renderQuery_single] at e
+          obtain ⟨e1, e2⟩ := split_unique 61 _ _ _ _ hw.1 hw'.1 e
+          rw [Prod.ext e1 e2]
+        | cons q' u' =>
+          exfalso
+          rw [renderQuery_single, renderQuery_cons_cons] at e
+          obtain ⟨_, e2⟩ := split_unique 61 _ _ _ _ hw.1 hw'.1 e
+          apply hw.2.2; rw [e2]; simp
+      | cons q u =>
+        cases t' with
+        | nil =>
+          exfalso
+          rw [renderQuery_single, renderQuery_cons_cons] at e
+          obtain ⟨_, e2⟩ := split_unique 61 _ _ _ _ hw.1 hw'.1 e
+          apply hw'.2.2; rw [← e2]; simp
+        | cons q' u' =>
+          rw [renderQuery_cons_cons, renderQuery_cons_cons] at e
+          obtain ⟨e1, e2⟩ := split_unique 61 _ _ _ _ hw.1 hw'.1 e
+          obtain ⟨e3, e4⟩ := split_unique 38 _ _ _ _ hw.2.2 hw'.2.2 e2
+          have := ih (q' :: u') (fun x hx => w x (by simp [hx])) (fun x hx => w' x (by simp [hx])) e4
+          rw [this, Prod.ext e1 e3]
+
+theorem insertBy_perm {α : Type} (le : α → α → Bool) (x : α) (l : List α) : (insertBy le x l).Perm (x :: l) := by
+  induction l with
+  | nil => simp [insertBy]
+  | cons y t ih =>
+    simp only [insertBy]
+    split
+    · exact List.Perm.refl _
+    · exact (List.Perm.cons y ih).trans (List.Perm.swap x y t)
+
+theorem sortBy_perm {α : Type} (le : α → α → Bool) (l : List α) : (sortBy le l).Perm l := by
+  induction l with
+  | nil => exact List.Perm.refl _
+  | cons x t ih => exact (insertBy_perm le x _).trans (List.Perm.cons x ih)
+
+def encPair (p : Bytes × Bytes) : Bytes × Bytes := (uriEncode p.1, uriEncode p.2)
+def decPair (p : Bytes × Bytes) : Bytes × Bytes := (pctDecode p.1, pctDecode p.2)
+
+theorem decPair_encPair (l : List (Bytes × Bytes)) : (l.map encPair).map decPair = l := by
+  induction l with
+  | nil => rfl
+  | cons p t ih => simp [encPair, decPair, pctDecode_uriEncode, ih]
+
+/-- **The canonical query string determines the multiset of (decoded) query parameters** other
+than the signature parameter itself. -/
+theorem canonicalQuery_determines (fx : Fix) (q1 q2 : List (Bytes × Bytes))
+    (e : canonicalQuery fx q1 = canonicalQuery fx q2) :
+    (q1.filter (fun p => p.1 != amzSignatureKey)).Perm (q2.filter (fun p => p.1 != amzSignatureKey)) := by
+  have encW : ∀ (l : List (Bytes × Bytes)), ∀ p ∈ l.map encPair,
+      (61 : UInt8) ∉ p.1 ∧ (38 : UInt8) ∉ p.1 ∧ (38 : UInt8) ∉ p.2 := by
+    intro l p hp
+    obtain ⟨p0, _, rfl⟩ := List.mem_map.1 hp
+    exact ⟨(uriEncode_clean p0.1).2, (uriEncode_clean p0.1).1, (uriEncode_clean p0.2).1⟩
+  unfold canonicalQuery at e
+  simp only at e
+  generalize q1.filter (fun p => p.1 != amzSignatureKey) = a at e ⊢
+  generalize q2.filter (fun p => p.1 != amzSignatureKey) = b at e ⊢
+  have hf : (fun (p : Bytes × Bytes) => (uriEncode p.1, uriEncode p.2)) = encPair := rfl
+  rw [hf] at e
+  split at e
+  · have := renderQuery_injective _ _ (encW _) (encW _) e
+    have := congrArg (List.map decPair) this
+    rw [decPair_encPair, decPair_encPair] at this
+    exact (sortBy_perm pairLe a).symm.trans (this ▸ sortBy_perm pairLe b)
+  · have h := renderQuery_injective _ _
+      (fun p hp => encW a p ((mem_sortBy _ _ _).1 hp)) (fun p hp => encW b p ((mem_sortBy _ _ _).1 hp)) e
+    have hp : (a.map encPair).Perm (b.map encPair) :=
+      (sortBy_perm pairLe _).symm.trans (h ▸ sortBy_perm pairLe _)
+    have := hp.map decPair
+    rwa [decPair_encPair, decPair_encPair] at this
+
+-- ---------------------------------------------------------------- acceptance of a correctly signed request
+
+theorem splitOn_no_sep (sep : UInt8) (a : Bytes) (h : sep ∉ a) : splitOn sep a = [a] := by
+  induction a with
+  | nil => rfl
+  | cons c t ih =>
+    have hc : c ≠ sep := by intro e; apply h; simp [e]
+    have ht : sep ∉ t := by intro m; apply h; simp [m]
+    simp [splitOn, hc, ih ht]
+
+theorem splitOn_append (sep : UInt8) (a rest : Bytes) (h : sep ∉ a) :
+    splitOn sep (a ++ sep :: rest) = a :: splitOn sep rest := by
+  induction a with
+  | nil => simp [splitOn]
+  | cons c t ih =>
+    have hc : c ≠ sep := by intro e; apply h; simp [e]
+    have ht : sep ∉ t := by intro m; apply h; simp [m]
+    simp [splitOn, hc, ih ht]
+
+theorem splitOn_join5 (a b c d e : Bytes) (ha : (47 : UInt8) ∉ a) (hb : (47 : UInt8) ∉ b) (hc : (47 : UInt8) ∉ c)
+    (hd : (47 : UInt8) ∉ d) (he : (47 : UInt8) ∉ e) :
+    splitOn 47 (join [47] [a, b, c, d, e]) = [a, b, c, d, e] := by
+  simp only [join, List.append_assoc, List.singleton_append]
+  rw [splitOn_append _ _ _ ha, splitOn_append _ _ _ hb, splitOn_append _ _ _ hc, splitOn_append _ _ _ hd,
+    splitOn_no_sep _ _ he]
+
+/-- General form of `sdk_signed_accepted`, for whichever model variant has the SDK's canonical request.
+Original statement: A request of the S3 client's shape that carries the
+credential of a configured key for the configured region, a timestamp inside the window, the
+SDK's list of signed headers (containing `host` and every `x-amz-*` / `Content-MD5` header it
+sent) and the signature the SDK computes with that key's secret is authenticated as that key. -/
+theorem accepted_of_canonical_eq (c : Crypto) (fx : Fix) (cfg : Config) (r : Req) (p : SigParams)
+    (ak secret date : Bytes) (t : Int)
+    (hp : parseSigParams r = .ok p) (halg : p.alg = algV4)
+    (hcred : p.credential = join [47] [ak, date, cfg.region, b! "s3", b! "aws4_request"])
+    (hak : (47 : UInt8) ∉ ak) (hdt : (47 : UInt8) ∉ date) (hrg : (47 : UInt8) ∉ cfg.region)
+    (hkey : cfg.creds.find? (fun k => k.accessKey == ak) = some ⟨ak, secret⟩)
+    (hts : parseTimestamp p.timestamp = some t) (hdate : date = p.timestamp.take 8)
+    (hwin : t - 900 ≤ cfg.now ∧ cfg.now ≤ t + (p.expires : Int))
+    (hhost : (parseSignedHeaders p.signedHeaders).contains hostKey = true)
+    (hsens : ∀ h ∈ r.headers, mustBeSigned (lower h.1) = true →
+      (parseSignedHeaders p.signedHeaders).contains (lower h.1) = true)
+    (hcanon : canonicalRequest c fx r (parseSignedHeaders p.signedHeaders) p.presigned =
+      (sdkCanon r (parseSignedHeaders p.signedHeaders) p.presigned).render)
+    (hstream : ¬ (headerGet r contentSHA256Header = streamingECDSA ∨ headerGet r contentSHA256Header = streamingECDSATrailer))
+    (hsig : p.signature = sdkSignature c secret date cfg.region p.timestamp r (parseSignedHeaders p.signedHeaders) p.presigned) :
+    checkAuth c fx cfg r =
+      .ok { accessKey := ak, params := p,
+            scope := join [47] [date, cfg.region, b! "s3", b! "aws4_request"],
+            signed := parseSignedHeaders p.signedHeaders } := by
+  unfold checkAuth
+  simp only [hp, halg, bne_self_eq_false, Bool.false_eq_true, if_false, hcred]
+  rw [splitOn_join5 ak date cfg.region _ _ hak hdt hrg (by decide) (by decide)]
+  simp only [bne_self_eq_false, Bool.false_eq_true, if_false, hkey, hts, ← hdate]
+  have hw : (decide (cfg.now < t - 900) || decide (cfg.now > t + (p.expires : Int))) = false := by
+    simp only [Bool.or_eq_false_iff, decide_eq_false_iff_not]
+    constructor <;> omega
+  simp only [hw, Bool.false_eq_true, if_false, hhost, Bool.not_true]
+  have hany : (r.headers.any fun h => mustBeSigned (lower h.1) &&
+      !(parseSignedHeaders p.signedHeaders).contains (lower h.1)) = false := by
+    apply Bool.eq_false_iff.2
+    intro hex
+    obtain ⟨h, hm, hb⟩ := List.any_eq_true.1 hex
+    simp only [Bool.and_eq_true, Bool.not_eq_true'] at hb
+    rw [hsens h hm hb.1] at hb
+    exact absurd hb.2 (by simp)
+  simp only [hany, Bool.false_eq_true, if_false]
+  have hsig' : signature c (signingKey c secret date cfg.region (b! "s3") (b! "aws4_request"))
+      (stringToSign c algV4 p.timestamp (join [47] [date, cfg.region, b! "s3", b! "aws4_request"])
+        (canonicalRequest c fx r (parseSignedHeaders p.signedHeaders) p.presigned)) = p.signature := by
+    rw [hsig, hcanon]; rfl
+  simp only [hsig', bne_self_eq_false, Bool.false_eq_true, if_false]
+  have hnot : (headerGet r contentSHA256Header == streamingECDSA ||
+      headerGet r contentSHA256Header == streamingECDSATrailer) = false := by
+    simp only [Bool.or_eq_false_iff, beq_eq_false_iff_ne, ne_eq]
+    exact ⟨fun e => hstream (Or.inl e), fun e => hstream (Or.inr e)⟩
+  simp only [hnot, Bool.and_false, Bool.false_eq_true, if_false]
+
+
 end Pithos.SigV4
